@@ -65,11 +65,11 @@ def header_only_definition():
     return _DEF
 
 
-def _make_gen(entry, src, r, k):
+def _make_gen(entry, src, r, k, progress=False):
     if entry == "ccsds":
         from space_packet_parser.packets import ccsds_generator
-        return ccsds_generator(src, buffer_read_size_bytes=r, skip_header_bytes=k)
-    return header_only_definition().packet_generator(src, buffer_read_size_bytes=r, skip_header_bytes=k)
+        return ccsds_generator(src, buffer_read_size_bytes=r, skip_header_bytes=k, show_progress=progress)
+    return header_only_definition().packet_generator(src, buffer_read_size_bytes=r, skip_header_bytes=k, show_progress=progress)
 
 
 def _raw(entry, item):
@@ -101,11 +101,13 @@ def _judge(items, end, delivered: bytes, k):
     return None
 
 
-def _sized(t: Tally, entry, kind, data, r, k, case):
+def _sized(t: Tally, entry, kind, data, r, k, case, progress=False):
+    import contextlib
+    import io as _io
     try:
-        with case_alarm(20), observed_warnings():
+        with case_alarm(20), observed_warnings(), contextlib.redirect_stdout(_io.StringIO()):
             src = data if kind == "bytes" else CountingBytesIO(data)
-            g = _make_gen(entry, src, r, k)
+            g = _make_gen(entry, src, r, k, progress)
             items, end = pull(g, horizon=len(data) // 7 + 2)
             got = [_raw(entry, i) for i in items]
     except CaseTimeout:
@@ -115,8 +117,8 @@ def _sized(t: Tally, entry, kind, data, r, k, case):
     t.outcomes[f"{kind}:{'ok' if why is None else 'bad'}:items={min(len(got), 4)}"] += 1
     if why:
         endk = end if isinstance(end, str) else end[0] + (":" + end[1] if end[0] == "raised" else "")
-        t.violation({"kind": "termination" if end != "stop" else "framing", "source": kind, "end": endk},
-                    {**case, "entry": entry, "source": kind, "r": r, "k": k, "data": data.hex()},
+        t.violation({"kind": "termination" if end != "stop" else "framing", "source": kind, "end": endk, "show_progress": progress},
+                    {**case, "entry": entry, "source": kind, "r": r, "k": k, "data": data.hex(), "show_progress": progress},
                     observed={"items": [x.hex() for x in got[:5]], "n_items": len(got), "end": end}, note=why)
         return False
     return True
@@ -187,6 +189,9 @@ def _task_streams(task):
                 for cut in range(L + 1):
                     data = stream[:cut]
                     _sized(t, entry, "bytes", data, None, k, {**case, "cut": cut})
+                    # the progress display is part of the generators: it must not make them fail on any of these sources
+                    _sized(t, entry, "bytes", data, None, k, {**case, "cut": cut}, progress=True)
+                    _sized(t, entry, "bytesio", data, 7, k, {**case, "cut": cut}, progress=True)
                     rs = [None] + list(range(1, L + 2)) if entry == "ccsds" else [None, 1, 6, 7]
                     for r in rs:
                         _sized(t, entry, "bytesio", data, r, k, {**case, "cut": cut})
@@ -274,7 +279,7 @@ def run(ctx):
         "programs": tally.programs,
         "exhaustive": True,
         "bound": (f"every sequence of 1..{max_len} palette packets x prefix lengths {ks} cut at EVERY byte offset, for bytes, "
-                  "BytesIO with every read size, and a scripted socket where the peer may close at every recv() choice point "
+                  "BytesIO with every read size (and with show_progress=True), and a scripted socket where the peer may close at every recv() choice point "
                   "under every fragmentation; all byte strings of length <= 2; all strings of length <= "
                   f"{8 if ctx.quick else 9} over {{00,01,FF}}; both ccsds_generator and packet_generator(header-only definition)"),
         "rule": ("one evaluation = one complete execution of a generator over one (stream, cut point / close point, source, read size, "
@@ -313,7 +318,7 @@ def replay(case):
         if case.get("source") == "real-socketpair":
             _real_socketpair_smoke(t)
         else:
-            _sized(t, case["entry"], case["source"], data, case.get("r"), case["k"], {})
+            _sized(t, case["entry"], case["source"], data, case.get("r"), case["k"], {}, progress=case.get("show_progress", False))
     return t.violations[0] if t.violations else None
 
 
